@@ -1,5 +1,16 @@
 package sim
 
+import (
+	"crypto/sha256"
+	"encoding/hex"
+	"fmt"
+	"os"
+	"sort"
+	"strings"
+)
+
+var wantEventDigest = os.Getenv("VERIF_EVENT_DIGEST") == "1"
+
 // C01, C02: containers against plain reference models.
 
 type stdHooks struct {
@@ -44,6 +55,43 @@ func stdProp(ps *PropSpec, h stdHooks) {
 		}
 		res.NonTrivial = h.nontrivial == nil || h.nontrivial(w, run, levels, slabs)
 		res.Hash = traceHash(tr)
+		if wantEventDigest {
+			// event-log hash for the determinism self-test: steps, step results, ledger I/O log, final registers
+			hh := sha256.New()
+			hh.Write(tr.JSON())
+			for _, r := range w.Results {
+				hh.Write([]byte(r))
+			}
+			// the order-relaxed commit with several workers issues its stores in arrival order (allowed to
+			// differ), so events are hashed as a sorted multiset per commit phase and in order otherwise
+			var phase []string
+			flush := func() {
+				sort.Strings(phase)
+				for _, x := range phase {
+					hh.Write([]byte(x))
+				}
+				phase = phase[:0]
+			}
+			cur := ""
+			for _, e := range w.Ledger.Log {
+				if e.Phase != cur {
+					flush()
+					cur = e.Phase
+				}
+				x := fmt.Sprintf("%d%s%d%x|", e.Kind, e.ID, e.Len, e.Hash)
+				if strings.HasPrefix(e.Phase, "commit#") {
+					phase = append(phase, x)
+				} else {
+					hh.Write([]byte(x))
+				}
+			}
+			flush()
+			hh.Write([]byte(ledgerDigest(w.Ledger)))
+			if viol != nil {
+				hh.Write([]byte(viol.Error()))
+			}
+			res.Digest = hex.EncodeToString(hh.Sum(nil)[:12])
+		}
 		for k, v := range w.Ledger.FaultsFired {
 			run.Add("fault."+k, v)
 		}
